@@ -169,7 +169,7 @@ PROPS = {
         "assumptions": ["equal created_at on one address: either version may be retained (model: first arrived)", "for ephemeral events the returned flag is not constrained by the monitor"],
     },
     "C05": {
-        "lean_modules": ["MocProps.C05"], "theorem_files": ["MocProps/C05.lean"],
+        "lean_modules": ["MocProps.C05", "MocProps.C05Inv"], "theorem_files": ["MocProps/C05.lean", "MocProps/C05Inv.lean"],
         "gen_groups": ["Cache"], "harness_prop": "cache", "driver_prop": "cache", "stateful": True,
         "monitors": ["deletion"],
         "n_quick": 60000, "n_thorough": 600000, "thorough_seeds": 3,
@@ -178,7 +178,10 @@ PROPS = {
                       "created_at (author_isolation, oldestOf_min; hypothesis: another author's event is not stored under the offered event's key — keys contain the author / ids are "
                       "hashes); a deletion request removes the events of its own author it references by key or by id (deleteByKind5_removes) and nothing of other authors "
                       "(deleteByKind5_isolated); its references are registered (k5_refs_registered) and registered events cannot be inserted again (blocked_while_deletion_retained). "
-                      "Registry clean-up when a request leaves is tied by the differential run (re-insertion after eviction of the request is generated).",
+                      "For EVERY history (C05Inv.lean): in every reachable state no retained event is named - by the key it is stored under or by its id - by a retained deletion request "
+                      "of its own author, whichever arrived first (never_visible_with_own_deletion), and the named events cannot come back while the request is retained (deleted_stays_out); "
+                      "invariant Inv2 (distinct keys, no retained event blocked by the registry, every reference of a retained request registered) is carried through Add - replace, register, "
+                      "delete referenced, evict - and through delete incl. the registry clean-up when a request leaves (add_inv2, delete_inv2, delete_keeps_registration).",
         "level_note": "Trusted: Lean kernel + standard axioms; go2lean; harness/driver. Address references to replaceable events (kind:pubkey vs kind:pubkey:) are left open by the "
                       "statement and accepted either way by the monitor.",
         "assumptions": ["key strings of different slots differ (hex ids/pubkeys)"],
